@@ -92,6 +92,12 @@ FAULTS = {
     'refresh-len-5': (lambda r: wire.frame(wire.ROUTE_REFRESH, bytes([0, 1, 0, 1, 0])), 'refresh-length'),
     # unexpected message for the state
     'unexp-open': (lambda r: wire.frame(wire.OPEN, r.open_body()), 'unexpected:open'),
+    # the same, with a host name / software version capability holding non-ASCII text (legal in a first OPEN)
+    'unexp-open-utf8-hostname': (lambda r: wire.frame(wire.OPEN, wire.encode_open(r.asn, r.hold, r.router_id, [wire.cap_mp(1, 1), wire.cap_mp(2, 1), wire.cap_asn4(r.asn), (73, bytes([5]) + 'café'.encode() + bytes([3]) + b'dom')])), 'unexpected:open'),
+    'unexp-open-utf8-software': (lambda r: wire.frame(wire.OPEN, wire.encode_open(r.asn, r.hold, r.router_id, [wire.cap_mp(1, 1), wire.cap_mp(2, 1), wire.cap_asn4(r.asn), (75, bytes([7]) + 'naïve1'.encode())])), 'unexpected:open'),
+    # message types the code knows about but no session negotiated: internal NOP (252) and OPERATIONAL (6)
+    'type-252': (lambda r: wire.frame(252, b''), 'header-type'),
+    'type-6-operational': (lambda r: wire.frame(6, bytes([0, 1, 0, 4, 0, 1, 1, 0])), 'header-type-or-ignored'),
     'unexp-update': (_upd(edev.upd_announce(('203.0.113.0', 24))), 'unexpected:update'),
     'unexp-keepalive': (lambda r: wire.frame(wire.KEEPALIVE, b''), 'unexpected:keepalive'),
     'unexp-refresh': (lambda r: wire.frame(wire.ROUTE_REFRESH, wire.encode_route_refresh(1, 1)), 'unexpected:refresh'),
@@ -145,6 +151,9 @@ def allowed(fault_class: str, state: str, fault: str, hold: int):
     unexpected = {'OPENSENT': {(5, 1), (5, 0)}, 'OPENCONFIRM': {(5, 2), (5, 0)}, 'ESTABLISHED': {(5, 3), (5, 0)}, 'CONNECT': {(5, 1), (5, 0)}}
     if fault_class in ('header', 'header-type'):
         return own_class(fault_class, fault)
+    if fault_class == 'header-type-or-ignored':
+        # OPERATIONAL was not negotiated: refusing it as an unknown/unexpected type or ignoring it are all defensible
+        return {(1, 3), (1, 0)} | unexpected.get(state, set()), True
     if fault_class.startswith('open-'):
         own, _ = own_class(fault_class, fault)
         if state in ('OPENSENT', 'CONNECT'):
@@ -194,7 +203,7 @@ class Env(c05.Env):
                 if cls == 'teardown' and state != 'ESTABLISHED':
                     continue
                 # the message the remote would send now anyway is not a fault
-                if f == 'unexp-open' and default == 'open':
+                if f.startswith('unexp-open') and default == 'open':
                     continue
                 if f == 'unexp-keepalive' and default == 'keepalive':
                     continue
@@ -220,7 +229,7 @@ class Env(c05.Env):
                     self.split_next = False
                 else:
                     s.feed(data)
-                if cls.startswith('open-') or arg == 'unexp-open':
+                if cls.startswith('open-') or arg.startswith('unexp-open'):
                     self.sent_open.add(s.index)
             elif cls == 'hold-timer':
                 # the remote stays silent: the well-behaved KEEPALIVE sender is switched off from now on
